@@ -58,6 +58,10 @@ RULE = (
     "exception} x {no answer on the event stream, the answer before / at the same instant as / after the POST completion, whole or cut} x "
     "three tie orders, each followed by two more requests on the same session (a stalled reader or sender shows there; the exit is late "
     "enough for every synthesised timeout, so a hang is a missing terminal, not a machinery timeout); "
+    "round 8: a request acknowledged with 202 and never answered while the event stream carries traffic DURING the wait (progress for the request's "
+    "token / a foreign / an integer / no token, other notifications, server requests, responses to other ids, keep-alive comments and events) at "
+    "periods T/4, T-1, T+1, 2T for 3T and 10T; oracle: the synthesised timeout arrives within the configured timeout after the 202 (delivery ticks "
+    "are recorded), and the two requests queued behind it are served; "
     "round 7: the event stream silent for 2x / 3x+1 / 10x every interval-like number of SSEParameters (timeout, keep_alive_interval, reconnect_delay) "
     "and the connection cap, under default, small, zero and very large values of those parameters (every field of SSEParameters set at least once), "
     "after nothing / a comment line / `event: keepalive` / `event: ping`; then server messages arrive and requests are answered on the stream; "
@@ -278,6 +282,16 @@ def _oracle_requests(case, o):
         for m in mine:
             if "result" not in m and "error" not in m:
                 return ("terminal/not-a-response/" + tag, f"request {r['id']!r}: {m}", None)
+        # "never (synthesised timeout error)": the first request of a session, acknowledged with 202 and
+        # never answered, ends WITHIN the configured timeout after the acknowledgement - whatever
+        # else the event stream carries meanwhile (the sender was free, the consumer was reading)
+        if r is reqs[0] and r["mode"] == "silence" and "ed" not in r and expect == 1 and len(mine) == 1 and not case.get("pause") \
+                and o.get("enter_abs") is not None and len(o.get("delivered_t", [])) == len(o.get("delivered", [])):
+            t_del = o["delivered_t"][[i for i, m in enumerate(o["delivered"]) if m is mine[0]][0]]
+            deadline = o["enter_abs"] + r["at"] + r.get("d", 4) + case.get("T", G.T_DEFAULT)
+            if t_del > deadline + 2:
+                return (f"terminal/late/{tag}", f"request {r['id']!r} (202, never answered) got its terminal message at tick {t_del}, "
+                        f"{t_del - deadline} ticks after the configured timeout expired", {"t<=": deadline})
         # when the server gave its answer in one of the ways the property names (in the POST reply,
         # on the event stream before or after the 202) and in time, that answer IS the terminal
         # message - a synthesised error stands for "never" and for a failed POST only
@@ -652,7 +666,7 @@ class Sizes(Base):
     def cases(self, ctx, budget):
         rng = ctx.sub_rng("c12-h3", budget)
         return G.decorate(G.size_cases(budget, rng) + G.collision_cases(budget, rng) + G.environment_cases(budget, rng)
-                          + G.twin_id_cases(budget, rng) + G.silence_cases(budget, rng), self.name)
+                          + G.twin_id_cases(budget, rng) + G.silence_cases(budget, rng) + G.wait_traffic_cases(budget, rng), self.name)
 
     def oracle(self, case, o):
         if o.get("harness_errors"):
